@@ -45,6 +45,9 @@ type c10Op struct {
 	// tracks afterwards must still be one whole assignment (the old or the new one) with a matching idle state,
 	// and a restart resumes the last acknowledged one.
 	ReloadFails bool `json:"reloadFails,omitempty"`
+	// Body (update with an empty assignment): how the empty assignment is written: "" = {"Targets":{}} as the
+	// coordinator's client marshals it, "null" = {"Targets":null}, "none" = {} - all three assign nothing
+	Body string `json:"body,omitempty"`
 }
 
 type c10T struct {
@@ -244,6 +247,7 @@ func runC10(rec *vkit.Recorder, c *c10Case) []vkit.Violation {
 		}
 		return out, nil
 	}
+	emptyBody := ""
 	doUpdate := func(i int, assign map[string][]c10T, reloadFails bool) bool {
 		req := &shard.UpdateTargetsRequest{Targets: map[string][]*target.Target{}}
 		for job, ts := range assign {
@@ -258,7 +262,16 @@ func runC10(rec *vkit.Recorder, c *c10Case) []vkit.Violation {
 		}
 		before := time.Now()
 		n.failUpdate = reloadFails
-		code, body := n.post("/api/v1/shard/targets/", req)
+		var code int
+		var body []byte
+		switch {
+		case len(assign) == 0 && emptyBody == "null":
+			code, body = n.do("POST", "/api/v1/shard/targets/", []byte(`{"Targets":null}`))
+		case len(assign) == 0 && emptyBody == "none":
+			code, body = n.do("POST", "/api/v1/shard/targets/", []byte(`{}`))
+		default:
+			code, body = n.post("/api/v1/shard/targets/", req)
+		}
 		n.failUpdate = false
 		after := time.Now()
 		acknowledged := code == 200
@@ -347,7 +360,9 @@ func runC10(rec *vkit.Recorder, c *c10Case) []vkit.Violation {
 		}
 		switch op.Kind {
 		case "update":
+			emptyBody = op.Body
 			doUpdate(i, op.Assign, op.ReloadFails)
+			emptyBody = ""
 		case "scrape":
 			m := model[op.Hash]
 			job := "ja"
@@ -465,6 +480,7 @@ func genC10(t *rapid.T) *c10Case {
 			op := c10Op{Kind: "update", Assign: map[string][]c10T{}}
 			switch pick(t, l+"-shape", 15, 15, 70) {
 			case 0: // empty
+				op.Body = rapid.SampledFrom([]string{"", "", "null", "none"}).Draw(t, l+"-emptyBody")
 			case 1: // repeat
 				for h, ct := range cur {
 					job := "ja"
